@@ -139,14 +139,14 @@ func modeBystander(tier string, args []string) {
 		verdict := ""
 		// the bystander goes on: requests that need the fid table and the server's bookkeeping
 		for i := 0; i < 3 && verdict == ""; i++ {
-			f := byRPC(by, &gmsg{kind: go9p.Tstat, a: 0}, uint16(10+i), time.Second)
+			f := byRPC(by, &gmsg{kind: go9p.Tstat, a: 0}, uint16(10+i), 4*time.Second)
 			if len(f) < 7 || f[4] != go9p.Rstat {
 				verdict = fmt.Sprintf("C11.other_connection_disturbed_by_teardown round=%d hold=%s request=%d", r, hold, i)
 			}
 		}
 		if verdict == "" {
 			third := byDial(o)
-			f := byRPC(third, &gmsg{kind: go9p.Tversion, a: 8192, s1: []byte("9P2000.u")}, go9p.NOTAG, time.Second)
+			f := byRPC(third, &gmsg{kind: go9p.Tversion, a: 8192, s1: []byte("9P2000.u")}, go9p.NOTAG, 4*time.Second)
 			if len(f) < 7 || f[4] != go9p.Rversion {
 				verdict = fmt.Sprintf("C11.new_connection_not_served_during_teardown round=%d hold=%s", r, hold)
 			}
